@@ -134,6 +134,17 @@ v('c15-source-map-order', 'C15', 'C15/field-symmetry', 'source_map-order', ('rog
 v('c15-view-reads-endpos', 'C15', 'C15/view-coverage', 'end_pos', ('rogw/tranp/implements/syntax/lark/entry.py', "		return self.__entry.value if type(self.__entry) is lark.Token else ''", "		return self.__entry.value if type(self.__entry) is lark.Token and self.__entry.end_pos is not None else ''"))
 v('c15-format-bin', 'C15', 'C15/store-wrappers', 'cache-format', ('rogw/tranp/implements/syntax/lark/parser.py', "decorator = self.__caches.get(basepath, identity=identity, format='json')", "decorator = self.__caches.get(basepath, identity=identity, format='bin')"))
 
+# ---- C16 ----
+v('c16-meta-columns-swapped', 'C16', 'C16/span-fields-from-one-object', 'span@', ('rogw/tranp/implements/syntax/lark/entry.py', "				self.__entry.meta.column,\n				self.__entry.meta.end_line,\n				self.__entry.meta.end_column,", "				self.__entry.meta.end_column,\n				self.__entry.meta.end_line,\n				self.__entry.meta.column,"))
+v('c16-token-begin-from-end-line', 'C16', 'C16/span-fields-from-one-object', 'span@', ('rogw/tranp/implements/syntax/lark/entry.py', "				self.__entry.line,\n				self.__entry.column,", "				self.__entry.end_line,\n				self.__entry.column,"))
+v('c16-end-column-unshifted', 'C16', 'C16/quotation-arithmetic', 'shift-uniform', ('rogw/tranp/view/error_render.py', "			node.source_map['end'][1] - 1,", "			node.source_map['end'][1],"))
+v('c16-shift-zero', 'C16', 'C16/quotation-arithmetic', 'shift-minus-one', ('rogw/tranp/view/error_render.py', "			node.source_map['begin'][0] - 1,\n			node.source_map['begin'][1] - 1,\n			node.source_map['end'][0] - 1,\n			node.source_map['end'][1] - 1,", "			node.source_map['begin'][0],\n			node.source_map['begin'][1],\n			node.source_map['end'][0],\n			node.source_map['end'][1],"))
+v('c16-range-condition-flipped', 'C16', 'C16/quotation-arithmetic', 'range-end', ('rogw/tranp/view/error_render.py', "begin_column + diff if begin_line == end_line else len(self.cause_line)", "begin_column + diff if begin_line != end_line else len(self.cause_line)"))
+v('c16-tab-four-blanks', 'C16', 'C16/quotation-arithmetic', 'tab-keeps-columns', ('rogw/tranp/view/error_render.py', ".replace('\\t', ' ')", ".replace('\\t', '    ')"))
+v('c16-no-minimum-caret', 'C16', 'C16/quotation-arithmetic', 'mark-width', ('rogw/tranp/view/error_render.py', "			explain = '^' * max(1, end - begin)\n			return f'{indent}{explain}'", "			explain = '^' * (end - begin)\n			return f'{indent}{explain}'"))
+v('c16-engine-line-number', 'C16', 'C16/engine-quotation-arithmetic', 'line-number', ('rogw/tranp/implements/syntax/tranp/syntax.py', "line_no = self._cause_source_map.begin_line + 1", "line_no = self._cause_source_map.begin_line"))
+v('c16-engine-quotes-end-line', 'C16', 'C16/engine-quotation-arithmetic', 'quoted-line-is-begin-line', ('rogw/tranp/implements/syntax/tranp/syntax.py', "return lines[self._cause_source_map.begin_line]", "return lines[self._cause_source_map.end_line]"))
+v('c16-node-span-of-parent-path', 'C16', 'C16/node-span-is-entry-span', 'Nodes.source_map', ('rogw/tranp/syntax/node/query.py', "		return self.__entries.by(full_path).source_map", "		return self.__entries.by(EntryPath(full_path).shift(-1).origin).source_map"))
 # ---- C17 ----
 v('c17-wrong-op', 'C17', 'C17/branch-operator-agreement', '_bitwise:^', ('rogw/tranp/implements/transpiler/evaluator.py', "		elif op == '^':\n			return left ^ right", "		elif op == '^':\n			return left | right"))
 v('c17-operands-swapped', 'C17', 'C17/branch-operator-agreement', '_calc:-', ('rogw/tranp/implements/transpiler/evaluator.py', "		elif op == '-':\n			return left - right", "		elif op == '-':\n			return right - left"))
